@@ -66,8 +66,10 @@ def find_cmd_strings(data: bytes) -> list[Node]:
             elif char == ord(b"("):
                 parens += 1
             if parens < 0:
+                # The command ends at the first unbalanced closing parenthesis
                 full_cmd = full_cmd[:i]
                 end = start + i
+                break
         deobfuscated, obfuscation = deobfuscate_cmd(full_cmd)
 
         split = deobfuscated.split()
